@@ -97,6 +97,7 @@ Proof.
                   (run_acts_inv fixed (exec lim faults fixed fuel) (exec_inv lim faults fixed fuel) acts)) as (A & B & C).
     destruct (vm_try (run_acts (exec lim faults fixed fuel) acts) st) as [s' o]. destruct o; simpl in *; auto.
   - split; auto.
+  - split; auto.
 Qed.
 
 Lemma api_exec_idle : forall lim faults fixed fuel a st,
@@ -106,7 +107,7 @@ Lemma api_exec_idle : forall lim faults fixed fuel a st,
   idle_regs (fst (api_exec lim faults fixed fuel a st)) = true.
 Proof.
   intros lim faults fixed fuel a st Hi. pose proof (idle_TopOK st Hi) as T.
-  destruct a as [body|body|acts|]; simpl.
+  destruct a as [body|body|acts| |r evs]; simpl.
   - pose proof (exec_api_inv lim faults fixed fuel (NRun false body) st I) as (A & B & C).
     destruct (exec lim faults fixed fuel (NRun false body) st) as [s' o]. simpl in *.
     destruct o; simpl; intros Hs D; try congruence;
@@ -120,6 +121,7 @@ Proof.
     destruct (vm_try (run_acts (exec lim faults fixed fuel) acts) st) as [s' o]. simpl in *.
     destruct o; simpl; intros Hs D; try congruence;
       specialize (C D T); simpl in C; eapply idle_regs_of_regs; eauto.
+  - intros _ _. exact Hi.
   - intros _ _. exact Hi.
 Qed.
 
